@@ -42,19 +42,19 @@ type C16Doc struct {
 
 // C16Case is one explicit run.
 type C16Case struct {
-	Property    string                `json:"property"`
-	Seed        uint64                `json:"seed"`
-	Shards      int                   `json:"shards"`
-	Replicas    int                   `json:"replicas"`
-	ColdShards  int                   `json:"cold_shards"`
-	ColdRepl    int                   `json:"cold_replicas"`
-	Docs        []C16Doc              `json:"docs"`
-	SearchScr   map[string][]SOutcome `json:"search_script"`
-	FetchScr    map[string][]SOutcome `json:"fetch_script"`
-	Requests    []C16Req              `json:"ops"`
-	Shuffle     bool                  `json:"shuffle_replicas,omitempty"`
-	PSync       float64               `json:"p_sync"`
-	Schedule    []int                 `json:"schedule,omitempty"`
+	Property   string                `json:"property"`
+	Seed       uint64                `json:"seed"`
+	Shards     int                   `json:"shards"`
+	Replicas   int                   `json:"replicas"`
+	ColdShards int                   `json:"cold_shards"`
+	ColdRepl   int                   `json:"cold_replicas"`
+	Docs       []C16Doc              `json:"docs"`
+	SearchScr  map[string][]SOutcome `json:"search_script"`
+	FetchScr   map[string][]SOutcome `json:"fetch_script"`
+	Requests   []C16Req              `json:"ops"`
+	Shuffle    bool                  `json:"shuffle_replicas,omitempty"`
+	PSync      float64               `json:"p_sync"`
+	Schedule   []int                 `json:"schedule,omitempty"`
 }
 
 type C16Req struct {
@@ -74,11 +74,11 @@ type c16Stub struct {
 }
 
 type c16Runner struct {
-	c      *C16Case
-	s      *verifsim.Sim
-	res    *RunResult
-	log    []string
-	start  time.Time
+	c     *C16Case
+	s     *verifsim.Sim
+	res   *RunResult
+	log   []string
+	start time.Time
 	// per request bookkeeping; stubs capture the record of the request they were called for, so that a
 	// straggler of an earlier (already answered, cancelled) request cannot write into the next one's
 	*reqRecord
@@ -110,7 +110,9 @@ func (r *c16Runner) violate(clause, f string, a ...any) {
 	r.logf("VIOLATION %s: %s", clause, d)
 }
 
-func docBody(d C16Doc) []byte { return []byte(fmt.Sprintf(`{"doc":"%d-%d","shard":%d}`, d.MID, d.RID, d.Shard)) }
+func docBody(d C16Doc) []byte {
+	return []byte(fmt.Sprintf(`{"doc":"%d-%d","shard":%d}`, d.MID, d.RID, d.Shard))
+}
 
 func (r *c16Runner) docsOf(shard int, cold bool) []C16Doc {
 	var out []C16Doc
@@ -315,6 +317,7 @@ func RunC16(t *testing.T, c *C16Case) *RunResult {
 	if len(res.Trace) > 120 {
 		res.Trace = res.Trace[len(res.Trace)-120:]
 	}
+	logProbes(res)
 	switch {
 	case len(s.Failures) > 0:
 		res.Outcome, res.Infra = "infra", fmt.Sprint(s.Failures)
